@@ -20,6 +20,7 @@ func init() {
 			Rule: "P: explicit-state search over one LineParser value: alphabet of about 135 lines (thorough: plus every line of <=3 items of a constructive alphabet, about 6000 lines) (plain, multi-byte, every marker form, typed properties, lines leaving markers open, closers and close-all for them, replacement markers, character prefixes, outer whitespace, and lines failing at every parser stage); transition ParseMarkup(line); " +
 				"states keyed by a reflective dump of the parser; from every reachable state every line is parsed and its result (text, attributes in order with positions, lengths, source positions and properties, error or not) compared with that of a fresh parser; the search runs to closure or to depth 3 (quick) / 4 (thorough); " +
 				"D: every dialogue in which a marked-up target line is shown after every sequence of <=3 (quick) / 4 (thorough) other lines from a pool including lines whose preparation fails (markup errors, failing expressions), compared with the dialogue showing the target alone; " +
+				"every result is overwritten by the host once it is done with it (a property added to every attribute, fields and text overwritten): no later parse, by the same or a fresh parser, may notice; " +
 				"every result returned earlier by the same parser is re-read after each later parse and must be unchanged (P, clause earlier-result-changed); " +
 				"O: every choice of 2..3 (quick) / 4 (thorough) options over 9 labels, each option compared with its label shown alone as a line; " +
 				"a case is one (history, line) pair; non-trivial = history of length >= 1",
@@ -88,6 +89,22 @@ func c14GeneratedLines() []string {
 	return out
 }
 
+// scribbleResult is a host doing what it likes with a result it was given: it adds a property to every attribute
+// (also to those that had none), overwrites the attributes and the text. No parser and no other result may notice.
+func scribbleResult(res *markup.ParseResult) {
+	if res == nil {
+		return
+	}
+	for i := range res.Attributes {
+		if res.Attributes[i].Properties != nil {
+			res.Attributes[i].Properties["added-by-the-host"] = markup.Value{StringValue: "x", ValueType: markup.ValueTypeString}
+		}
+		res.Attributes[i].Name = "overwritten-by-the-host"
+		res.Attributes[i].Position, res.Attributes[i].Length, res.Attributes[i].SourcePosition = -7, 977, -9
+	}
+	res.Text = "overwritten by the host"
+}
+
 func resultString(res *markup.ParseResult, err error, pan any) string {
 	if pan != nil {
 		return fmt.Sprintf("PANIC %v", pan)
@@ -130,6 +147,19 @@ func runC14(ctx *report.Ctx) {
 		fresh[i] = resultString(res, err, pan)
 		ctx.Outcome(fresh[i])
 	}
+	// the results of fresh parsers are written down before any host gets to overwrite a result it was given; a second
+	// round after such overwriting must read the same (nothing is shared between results, parsers or the package)
+	for i, l := range lines {
+		var lp markup.LineParser
+		var res *markup.ParseResult
+		var err error
+		pan := guard(func() { res, err = lp.ParseMarkup(l) })
+		if got := resultString(res, err, pan); got != fresh[i] {
+			ctx.Violation(report.Violation{Clause: "fresh-parser-history", Witness: fmt.Sprintf("fresh parser, line %q, parsed a second time in this process", l),
+				Detail: fmt.Sprintf("the first fresh parser gave %s; a later fresh parser gives %s", fresh[i], got), Part: "P", Extra: map[string]any{"line": l}})
+		}
+		scribbleResult(res)
+	}
 	maxDepth := report.Pick(ctx, 3, 4)
 	ctx.Bound("history_depth", maxDepth)
 
@@ -150,6 +180,7 @@ func runC14(ctx *report.Ctx) {
 			lp := &markup.LineParser{}
 			var last *markup.ParseResult
 			for _, i := range h {
+				scribbleResult(last) // the host is done with the previous result and has done what it liked with it
 				last = nil
 				guard(func() { last, _ = lp.ParseMarkup(lines[i]) })
 			}
